@@ -165,10 +165,13 @@ func (t *Teamserver) ListenerRemove(Name string) ([]*Listener, []packager.Packag
 			err := t.DB.ListenerRemove(Name)
 			if err != nil {
 				logger.Error("Failed to remove listener: ", Name)
-				return t.Listeners, t.EventsList
+				return t.Listeners, t.eventsSnapshot()
 			}
 
 			t.Listeners = append(t.Listeners[:i], t.Listeners[i+1:]...)
+
+			t.EventsMutex.Lock()
+			defer t.EventsMutex.Unlock()
 
 			for EventID := range t.EventsList {
 				if t.EventsList[EventID].Head.Event == packager.Type.Listener.Type {
@@ -188,7 +191,7 @@ func (t *Teamserver) ListenerRemove(Name string) ([]*Listener, []packager.Packag
 	}
 	logger.Error("Listener not found: ", Name)
 
-	return t.Listeners, t.EventsList
+	return t.Listeners, t.eventsSnapshot()
 }
 
 func (t *Teamserver) ListenerEdit(Type int, Config any) {
